@@ -8,12 +8,57 @@ K = 'Kani 0.68 (CBMC 6.11 + CaDiCaL) bounded model checking of the real crate, h
 M = ('symbolic execution of the rustc MIR of the real functions (own executor "mirx", regenerated from /repo on every run) '
      'with z3 deciding every path condition and every property query')
 
+KT = 'SAT-based bounded model checking of the compiled crate (Kani 0.68 / CBMC 6.11 / CaDiCaL) over fully symbolic inputs, unwinding assertions on; counterexamples replayed natively (concrete playback)'
+MT = 'symbolic execution of the rustc MIR of the real functions (mirx) with z3 deciding path feasibility and every property query; counterexamples replayed natively through the public API'
+
 CHECKS = {
-    'C13': dict(level='proof', engine='kani+mirx', technique='SAT-based bounded model checking (Kani/CBMC) over fully symbolic finite domains; MIR symbolic execution + z3 for Display',
-                text='Every domain named by the property is finite (52 cards, 13 ranks, 4 suits, 52 words, ordered endpoint pairs, 1- and 2-char ASCII texts) and is covered '
-                     'completely by symbolic inputs; each harness is one SAT query family with unwinding assertions on, so UNSAT means the assertion holds for every value.',
-                note='Trusted: Kani->CBMC translation, CaDiCaL, rustc MIR + Engine M std models for the Display part, z3. Reversed range endpoints and non-ASCII text are C09\'s business.',
-                ref='6/C13'),
+    'C01': dict(level='proof', engine='kani', technique=KT,
+                text='The input space is finite (C(52,7) sets x 7! orders). Thorough: all sets in sorted order against an independent closed-form oracle, plus invariance under each of the six adjacent transpositions over all orders (they generate S7): complete. '
+                     'Quick: both lookup tables completely (flush path in every order; every rank multiset through the real perfect hash in sorted order), order independence of the flush path outright and of the whole function on a seed-chosen 4-rank window.',
+                note='Trusted: Kani->CBMC translation, CaDiCaL, the oracle kani/spec_class.rs (validated natively against the definitional min-over-21-subsets classifier on all 133,784,560 hands).', ref='6/C01'),
+    'C02': dict(level='model_checking', engine='mirx', technique=MT + '; one inductive step of next() from an arbitrary valid iterator state (symbolic flop, deck, position, scope, odometer, entry lists of symbolic length with uninterpreted elements)',
+                text='One frame of next() either yields the deal at the current position p (then p is legal, the showdown carries flop+turn+river, the selected combos in player order, the left-to-right f32 product, and the iterator is left at succ(p)), '
+                     'or skips p (then p is illegal and iteration continues at succ(p)), or returns None (then p is the scope end). By induction over the finite position order the yielded sequence is exactly the legal deals, each once. Bound: player count.',
+                note='Assumes the representation invariant (proved preserved in C04/C08), S1 (set model), S8 (uninterpreted hand strength); entry-list order is arbitrary (HashMap order). Self-call / loop back edge handled by assume-guarantee, well-founded by the ranking obligation of C08.', ref='6/C02'),
+    'C03': dict(level='model_checking', engine='kani', technique=KT + '; evaluator stubbed by an uninterpreted function (kani::stub) so every tie pattern is in the space',
+                text='5+2n symbolic pairwise-distinct cards, n <= 3 (quick) / 4 (thorough) with arbitrary strengths, n = 2 with the real evaluator: players in input order with their own seven cards and evaluation, winners exactly the minimum index, winner_len = number of flags >= 1; board collision => None.',
+                note='Bound n <= 4 of 10 seats (single pass has no per-n behaviour beyond first/middle/last: stated, not proved). std HashSet replaced by a linear model set in the scratch copy.', ref='6/C03'),
+    'C04': dict(level='model_checking', engine='mirx', technique=MT + '; inductive step with a symbolic scope window plus symbolic execution of scope()/into_iter()',
+                text='Under from <= p <= to (valid positions or (48,49)) the stop test fires exactly at p == to, a step keeps the position valid, inside the window and leaves the window untouched, exhaustion is stable; scope() stores its arguments and into_iter() starts at from with a zero odometer and the rank-major deck. Tiling of chained half-open windows follows by concatenation.',
+                note='Concatenation argument is one line on paper, not a solver step. (t,49) with t<48 is not a position (C16).', ref='6/C04'),
+    'C05': dict(level='model_checking', engine='mirx', technique=MT + '; fully symbolic UTF-8 token strings of every length up to the bound, regexes as DFAs generated from the source literals',
+                text='Every Ok path of the real token parser determines its shape text; its expansion must equal the denotation of that text under the standard reading (independent reference), weight = literal or 1; no Err path admits a well-formed token; every well-formed shape inside the length bound is accepted; two-token lists with overlaps and spaces equal ordered insertion.',
+                note='Bound: token length (quick 7, thorough 12 bytes), 2-token lists. S2 (regex->DFA), S3 (f32::from_str), S6, S7.', ref='6/C05'),
+    'C06': dict(level='model_checking', engine='mirx', technique=MT + '; Display::fmt then FromStr::from_str executed back to back on symbolic ranges (window of adjacent rank pairs with symbolic presence and weights)',
+                text='from_str(fmt(r)) == r slot by slot with bit-identical weights on every path, for windows of up to 3 (4) adjacent rank pairs in each row kind with symbolic presence, two symbolic weights, partial presence and a stray combo; token-level round trip for every token the parser can produce.',
+                note='f32 Display by contract (S4). Everything outside the window is absent. -0.0 is its own obligation.', ref='6/C06'),
+    'C07': dict(level='proof', engine='kani', technique=KT,
+                text='Quick: every index 1..=7462 is named by the category whose interval (derived from the combinatorial class counts) contains it, and all 7-card sets whose true class is a category boundary get the true category. Thorough: all C(52,7) sets.',
+                note='Quick composes with C01 (index = true class). Oracle as in C01.', ref='6/C07'),
+    'C08': dict(level='model_checking', engine='mirx', technique=MT + '; inductive step on both MIR profiles (overflow checks on/off), empty ranges allowed; native amplification for the stack clause',
+                text='No feasible path of a frame of next() panics (dev and release MIR); every frame returns None with the state unchanged or moves the position strictly forward (ranking function => termination); next() never re-enters itself (sufficient for bounded stack; a failure is amplified natively on a 2 MiB thread).',
+                note='Actual stack bytes are outside the reach of a solver: the stack clause is a sufficient condition plus native amplification.', ref='6/C08'),
+    'C09': dict(level='model_checking', engine='kani+mirx', technique=KT + ' for the byte parsers; ' + MT + ' for the token parser and its consumers',
+                text='Rank/Suit/Card/CardPair::from_str on every well-formed UTF-8 string of <= 6 bytes (Kani); HandRangeToken::from_str on every well-formed UTF-8 string of 0..Lmax bytes, then into_iter and to_string on every Ok token: no path ends in a panic.',
+                note='Bound: 6 bytes (byte parsers), Lmax = 7 (quick) / 13 (thorough) bytes per token. S2-S7.', ref='6/C09'),
+    'C10': dict(level='model_checking', engine='mirx', technique=MT,
+                text='On every Ok path of the token parser over symbolic strings each expanded combo has two different cards and a weight in [0,1] (z3 FP); product lemma x,y in [0,1] => x*y in [0,1]; the no-card-twice consequence is the legality obligation of C02.',
+                note='Bound: token length; weight literals <= 7 significant digits exact, longer by interval (S3).', ref='6/C10'),
+    'C12': dict(level='model_checking', engine='mirx', technique=MT + '; map with symbolic presence flags so that 3^k patterns are covered by a handful of paths',
+                text='rank_pairs() reports R with weight w iff all combos of R are present with f32-equal weight w; orphan_card_pairs() is exactly the present combos not covered by a reported pair with their own weights; the two views partition card_pairs().',
+                note='Populated: one rank pair (thorough: also 34 two-rank-pair configurations) + 2 stray combos; everything else absent. S1.', ref='6/C12'),
+    'C13': dict(level='proof', engine='kani', technique=KT,
+                text='Every domain named by the property is finite and covered completely by symbolic inputs (52 cards, 13 ranks, 4 suits, 52 words, ordered endpoint pairs, 1- and 2-char ASCII texts, all chars).',
+                note='Reversed range endpoints and non-ASCII text belong to C09.', ref='6/C13'),
+    'C14': dict(level='proof', engine='kani', technique=KT,
+                text='All 52x51 ordered pairs symbolic: new(a,b)==new(b,a), canonical order, same card set, identical byte sequences fed to an arbitrary Hasher; both card orders of a text parse to new(c0,c1).',
+                note='Hash equality shown for every hasher via a recording Hasher.', ref='6/C14'),
+    'C16': dict(level='model_checking', engine='mirx', technique=MT + ' with the f32 kernel in the FloatingPoint theory of z3 (fp.sqrt, roundToIntegral, fmod as x - RTZ(x), saturating casts)',
+                text='Two consecutive loop iterations of calculate_scopes from the real MIR with symbolic (count, i): no overflow assert fires, chain, first start (0,1), last end (48,49), monotone, every end a valid position.',
+                note='Bound: worker count N (quick 32, thorough 256). Translator validated against native runs bit for bit.', ref='6/C16'),
+    'C17': dict(level='model_checking', engine='mirx', technique=MT + '; assertions on the token sequence emitted by the real Display::fmt on symbolic ranges',
+                text='Order of tokens, complete rank pairs <=> rank-pair tokens, right token kind per run, adjacent tokens never mergeable, identical text under a different slot order of the map model.',
+                note='Same window configurations as C06. Construction histories are represented by slot orders of the map model (S1).', ref='6/C17'),
 }
 
 NOT_YET = {
